@@ -179,8 +179,9 @@ class SymRange:
 
 
 class RegexObj:
-    def __init__(self, pattern):
+    def __init__(self, pattern, flags=0):
         self.pattern = pattern
+        self.flags = int(flags)
 
 
 class RepoFunc:
@@ -497,7 +498,8 @@ class Interp:
         for n, a, r in ctx.decls:
             if n in toks:
                 header.append(f"(declare-fun {n} ({' '.join(smt.sort_name(x) for x in a)}) {smt.sort_name(r)})")
-        if smt.quick_unsat(header, sub):
+        stringy = any(("str." in a or "seq." in a) for a in sub)
+        if smt.quick_unsat(header, sub, 80 if stringy else 300):
             raise Infeasible()
 
     def forall_int(self, fn, instances=()):
@@ -556,6 +558,8 @@ class Interp:
             return c == 0
         if isinstance(v, (FStr, Obj, Opaque, RepoFunc, BoundMethod, Builtin, EnvFunc)):
             return True
+        if hasattr(v, "vc_truth"):
+            return self.truth(v.vc_truth(self), label)
         return bool(v)
 
     # -- name resolution ----------------------------------------------------
